@@ -6,9 +6,17 @@
 //! extending): if it shows irrelevant detail the search is finer, if it hides state the search
 //! is coarser — in neither case can it cause an alarm, because every verdict comes from the
 //! oracle on a real execution from a fresh object.
+//!
+//! Counter masking. A wide statistics counter (bytes seen, frames seen, …) makes every state
+//! look new, so the plain search drowns at depth 1-2. When the plain pass hits its cap, the
+//! numeric tokens of the Debug rendering that behaved like a counter on every sampled
+//! transition (never decreased, increased at least once) are masked and the search is run a
+//! second time with the masked rendering as the state name. Masking only merges names; the
+//! histories that are replayed, and the verdicts, are as real as before.
 use rayon::prelude::*;
 use std::collections::HashMap;
 
+#[derive(Default)]
 pub struct Outcome {
     pub states: usize,
     pub histories_run: u64,
@@ -17,6 +25,65 @@ pub struct Outcome {
     pub max_depth: usize,
     /// failing histories (alphabet indices), shortest first
     pub failures: Vec<Vec<u32>>,
+    /// second pass with counter-like tokens masked (only if the first pass hit the cap)
+    pub masked_pass: Option<Box<Outcome>>,
+    pub masked_tokens: usize,
+}
+
+fn tokens(s: &str) -> Vec<&str> {
+    s.split(|c: char| !(c.is_ascii_alphanumeric() || c == '_')).filter(|t| !t.is_empty()).collect()
+}
+
+/// Which token positions behave like a counter over the sampled (parent, child) renderings.
+pub fn counter_mask(samples: &[(String, String)]) -> Vec<bool> {
+    let Some(first) = samples.first() else { return Vec::new() };
+    let n = tokens(&first.0).len();
+    let mut never_decreased = vec![true; n];
+    let mut increased = vec![false; n];
+    let mut numeric = vec![true; n];
+    let mut usable = 0;
+    for (p, c) in samples {
+        let (tp, tc) = (tokens(p), tokens(c));
+        if tp.len() != n || tc.len() != n {
+            continue; // the rendering changed shape (enum with payload): no information
+        }
+        usable += 1;
+        for i in 0..n {
+            match (tp[i].parse::<u64>(), tc[i].parse::<u64>()) {
+                (Ok(a), Ok(b)) => {
+                    if b < a {
+                        never_decreased[i] = false;
+                    }
+                    if b > a {
+                        increased[i] = true;
+                    }
+                }
+                _ => numeric[i] = false,
+            }
+        }
+    }
+    if usable < 8 {
+        return vec![false; n];
+    }
+    (0..n).map(|i| numeric[i] && never_decreased[i] && increased[i]).collect()
+}
+
+pub fn apply_mask(s: &str, mask: &[bool]) -> String {
+    if !mask.iter().any(|m| *m) {
+        return s.to_string();
+    }
+    let toks = tokens(s);
+    if toks.len() != mask.len() {
+        return s.to_string();
+    }
+    let mut out = String::with_capacity(s.len());
+    for (i, t) in toks.iter().enumerate() {
+        if i > 0 {
+            out.push(' ');
+        }
+        out.push_str(if mask[i] { "#" } else { t });
+    }
+    out
 }
 
 /// `run(history)` replays the history (alphabet indices) on fresh objects and returns
@@ -25,14 +92,41 @@ pub fn bfs<F>(alphabet_len: usize, cap: usize, max_failures: usize, run: F) -> O
 where
     F: Fn(&[u32]) -> Result<(String, bool), String> + Sync,
 {
+    let mut samples: Vec<(String, String)> = Vec::new();
+    let mut first = bfs_pass(alphabet_len, cap, max_failures, &run, &[], Some(&mut samples));
+    if !first.closed {
+        let mask = counter_mask(&samples);
+        let masked = mask.iter().filter(|m| **m).count();
+        if masked > 0 {
+            let second = bfs_pass(alphabet_len, cap, max_failures, &run, &mask, None);
+            first.masked_tokens = masked;
+            for f in &second.failures {
+                if first.failures.len() < max_failures * 2 && !first.failures.contains(f) {
+                    first.failures.push(f.clone());
+                }
+            }
+            first.histories_run += second.histories_run;
+            first.steps += second.steps;
+            first.masked_pass = Some(Box::new(second));
+        }
+    }
+    first
+}
+
+fn bfs_pass<F>(alphabet_len: usize, cap: usize, max_failures: usize, run: &F, mask: &[bool], mut samples: Option<&mut Vec<(String, String)>>) -> Outcome
+where
+    F: Fn(&[u32]) -> Result<(String, bool), String> + Sync,
+{
     let mut parent: Vec<Option<(u32, u32)>> = vec![None];
     let mut depth: Vec<u32> = vec![0];
+    let mut raw_fp: Vec<String> = Vec::new();
     let mut index: HashMap<String, u32> = HashMap::new();
     let root_fp = match run(&[]) {
         Ok((fp, _)) => fp,
         Err(_) => String::from("<panic at construction>"),
     };
-    index.insert(root_fp, 0);
+    index.insert(apply_mask(&root_fp, mask), 0);
+    raw_fp.push(root_fp);
     let hist_of = |parent: &Vec<Option<(u32, u32)>>, mut i: u32| -> Vec<u32> {
         let mut v = Vec::new();
         while let Some((p, s)) = parent[i as usize] {
@@ -42,10 +136,9 @@ where
         v.reverse();
         v
     };
-    let mut out = Outcome { states: 1, histories_run: 0, steps: 0, closed: false, max_depth: 0, failures: Vec::new() };
+    let mut out = Outcome::default();
     let mut level: Vec<u32> = vec![0];
     while !level.is_empty() {
-        // one BFS level, in parallel
         let jobs: Vec<(u32, u32)> = level.iter().flat_map(|s| (0..alphabet_len as u32).map(move |a| (*s, a))).collect();
         let results: Vec<(u32, u32, Result<(String, bool), String>, usize)> = jobs
             .par_iter()
@@ -62,17 +155,20 @@ where
             out.steps += len as u64;
             match r {
                 Ok((fp, true)) => {
-                    if !index.contains_key(&fp) {
-                        if parent.len() < cap {
-                            let id = parent.len() as u32;
-                            index.insert(fp, id);
-                            parent.push(Some((s, a)));
-                            depth.push(depth[s as usize] + 1);
-                            out.max_depth = out.max_depth.max(depth[id as usize] as usize);
-                            next_level.push(id);
-                        } else {
-                            out.closed = false;
+                    if let Some(sm) = samples.as_deref_mut() {
+                        if sm.len() < 4000 {
+                            sm.push((raw_fp[s as usize].clone(), fp.clone()));
                         }
+                    }
+                    let key = apply_mask(&fp, mask);
+                    if !index.contains_key(&key) && parent.len() < cap {
+                        let id = parent.len() as u32;
+                        index.insert(key, id);
+                        parent.push(Some((s, a)));
+                        raw_fp.push(fp);
+                        depth.push(depth[s as usize] + 1);
+                        out.max_depth = out.max_depth.max(depth[id as usize] as usize);
+                        next_level.push(id);
                     }
                 }
                 Ok((_, false)) | Err(_) => {
@@ -94,4 +190,13 @@ where
     out.states = parent.len();
     out.closed = true;
     out
+}
+
+pub fn outcome_json(o: &Outcome) -> serde_json::Value {
+    let mut v = serde_json::json!({"states_found": o.states, "closed": o.closed, "max_depth": o.max_depth, "histories_replayed": o.histories_run, "steps_replayed": o.steps, "failing(sampled)": o.failures.len()});
+    if let Some(m) = &o.masked_pass {
+        v["counter_like_tokens_masked"] = serde_json::json!(o.masked_tokens);
+        v["masked_pass"] = serde_json::json!({"states_found": m.states, "closed": m.closed, "max_depth": m.max_depth});
+    }
+    v
 }
